@@ -7,14 +7,11 @@ CONSTANTS CoverDepth
 \* tree) once and prints every outgoing transition; a Prove transition carries all
 \* mutation cases of one query.
 ProofCover == ProofNext /\ PrintT(ToJson(hist'))
-pview      == <<working, latest, IF latest > 0 THEN saved[latest] ELSE EMPTY>>
+wview == <<working, latest>>
 CoverBound == Len(hist) <= CoverDepth
 
 \* development aid: name the offending cases instead of just failing
-Unsound == UNION {{<<v, k, m>> : m \in {m \in Mutations(v, k) :
-                 ~Neutral(m) /\ ~Known(v, k, m) /\ Accepts(v, k, m) /\ Demands(v, k, m) = 0}} : <<v, k>> \in versions \X KeyS}
-FalseReject == UNION {{<<v, k, m>> : m \in {m \in Mutations(v, k) :
-                 ~Neutral(m) /\ Demands(v, k, m) = 1 /\ ~Accepts(v, k, m)}} : <<v, k>> \in versions \X KeyS}
-DbgSound == Unsound = {} \/ Assert(FALSE, <<"unsound", Unsound>>)
-DbgReject == FalseReject = {} \/ Assert(FALSE, <<"false reject", FalseReject>>)
+DbgVerdicts ==
+    \A q \in Queries : \A m \in MutationsFor(q) :
+        LET j == Judge(q, m) IN (~j.unsound /\ ~j.falseReject /\ ~j.stale) \/ Assert(FALSE, <<"wrong verdict", q.v, q.k, m, j>>)
 =============================================================================
